@@ -88,6 +88,30 @@ def body(data, hist):
             hist.apply({'op': 'pr_event', 'pr': A})
         if hist.violations:
             return
+    # final phase: the states in which the scan of the integration branches
+    # is most delicate are reached on purpose, in generated order: fresh
+    # manual work, and a destination (or the source) that moved after the
+    # integration branches were last updated
+    tail = data.draw(st.lists(st.sampled_from(
+        ('manual', 'move_dst', 'move_own_dst', 'push_src', 'evaluate')),
+        max_size=3), label='tail')
+    for t in tail:
+        if t == 'manual':
+            hist.apply({'op': 'manual', 'pr': A,
+                        'w': data.draw(st.integers(0, 3), label='tw'),
+                        'kind': pick(('commit', 'merge', 'merge_src'),
+                                     'tmk')})
+        elif t == 'move_dst':
+            hist.apply({'op': 'move_dst', 'branch': pick(dests, 'tmd')})
+        elif t == 'move_own_dst':
+            hist.apply({'op': 'move_dst', 'branch': dstA})
+        elif t == 'push_src':
+            hist.apply({'op': 'push_src', 'pr': A, 'kind': pick(
+                ('add', 'amend', 'rebase'), 'tpk')})
+        else:
+            hist.apply({'op': 'pr_event', 'pr': A})
+        if hist.violations:
+            return
     cmd = pick(('@robot reset', '@robot reset', '@robot force_reset',
                 '/reset'), 'cmd')
     hist.apply({'op': 'comment', 'pr': A, 'user': AUTHOR, 'text': cmd})
